@@ -34,12 +34,26 @@ MANIFEST = {
             "plus a trace-validated correspondence run of the real Kademlia "
             "event loop (paused clock, in-memory substreams, scripted transport events and remote peers) against the model, "
             "and a property-level oracle (per query exactly one terminal event once the environment has discharged every "
-            "obligation; success of a put/announce only with enough peers that received the data).",
+            "obligation; success of a put/announce only with enough peers that received the data). "
+            "Executor (Model/Kad/Executor.lean, every script of the substream and every tick schedule): "
+            "executor_exactly_one_result (a submitted future is pending or was yielded exactly once, with a result its method "
+            "can produce, no later than WRITE_TIMEOUT + READ_TIMEOUT after submission; afterwards it is not pending), "
+            "executor_results_allowed (the coordinator model's result table is the executor's), every_query_terminates (one "
+            "allowed result per outstanding future discharges the executor obligation; with dials and opens discharged and "
+            "the engine drained every started operation has exactly one terminal event) - tied to the real QueryExecutor "
+            "driven on scripted substreams with the paused clock. Serving side (Model/Kad/Serve.lean, every history): "
+            "manual_validation_never_stores (Manual mode: every stored key was stored by the user; Automatic: an acceptable "
+            "inbound record is stored), inbound_answered_per_kind (FIND_NODE/GET_VALUE/PUT_VALUE/GET_PROVIDERS answered, "
+            "ADD_PROVIDER/key-less/undecodable not, whatever the configuration), manual_update_never_adds - tied to the real "
+            "Kademlia serving scripted inbound substreams under the ConfigBuilder options.",
     "note": "Trusted: Lean kernel; axioms propext/Classical.choice/Quot.sound; the hand-written model and its tie (sampled "
             "trace validation through adapter src/verif/c16.rs and its three trace points in kademlia/mod.rs); the iterative "
             "lookups are abstract (hypotheses: a lookup with no pending peer acts; no peer is queried twice; fan-out targets "
             "answered) — their internals are C15; the transport manager and TransportService ordering guarantees are "
-            "environment hypotheses (C05/C08); bounded time is argued from the 15 s executor timeouts, not proved.",
+            "environment hypotheses (C05/C08); bounded time is proved for the executor (logical seconds of the paused tokio "
+            "clock, one poll per second) and argued for dials/opens; std::time::Instant based expiry (record/provider TTL) is "
+            "only exercised with TTL 0 and the defaults; routing-table buckets never fill up in the check (at most 8 peers), "
+            "`closest` on a table larger than the replication factor is accepted in checker mode.",
     "technique": "Lean 4 proof (ownership invariant over a labelled transition system) + trace validation of the real event loop",
     "design_ref": "DESIGN.md §7 C16",
 }
@@ -52,7 +66,16 @@ RULE = ("seeded scenarios on networks of 2-5 remote peers (address kinds dialabl
         "real Litep2p nodes over loopback TCP (local node, healthy peer G, fault target F: healthy / only an address of a "
         "transport that is not enabled / closed TCP port / local node at its outgoing-connection limit) x {put to [G,F], "
         "find_node, start_providing} x quorum, real clock, deadline 75 s (12 s where nothing but the missing event is "
-        "awaited), no timing compared; the model predicts the terminal kind from the tracker's clamping rule")
+        "awaited), no timing compared; the model predicts the terminal kind from the tracker's clamping rule; "
+        "executor cases: 2-12 futures of the five QueryExecutor methods on scripted substreams (writable at once / never / "
+        "at 1..40 s incl. exactly at the 15 s deadline, reset, reply / EOF / oversized frame at 0..40 s, oversized request), "
+        "ticks of 1..31 s, final tick 31 s, every result compared with its second; serving cases: random configuration "
+        "(validation mode, update mode, record ttl 0, max record size / count, max message size, provider refresh 30-100 s, "
+        "provider ttl 0, known peers, protocol names, Config::default) x inbound FIND_NODE / GET_VALUE / PUT_VALUE (sizes "
+        "around the bounds) / ADD_PROVIDER (own / foreign provider) / GET_PROVIDERS / key-less / undecodable / silent / "
+        "closing requesters x store_record / put_record / get_record / start_providing / stop_providing (try_ and awaiting "
+        "handle variants) x lookups answered with peer lists x clock advances across the refresh interval, ending with "
+        "`settle`; nine fixed cases (one per newly driven region) at every seed")
 TRUSTED_BASE = ["Lean 4.33 kernel", "axioms: propext, Classical.choice, Quot.sound only",
                 "hand-written model Model/Kad/Coordinator.lean tied to kademlia/mod.rs by trace validation",
                 "adapter /repo/src/verif/c16.rs (+ c16_engine.rs, c16_manager.rs), three trace points in kademlia/mod.rs, "
@@ -61,13 +84,17 @@ TRUSTED_BASE = ["Lean 4.33 kernel", "axioms: propext, Classical.choice, Quot.sou
                 "and no-requery contracts are hypotheses (C15)",
                 "transport manager played by the adapter (dial accepted => later ConnectionEstablished or DialFailure); "
                 "TransportService event ordering (C08)",
-                "tokio paused clock for the 15 s executor timeouts; in-memory yamux substreams"]
+                "tokio paused clock for the 15 s executor timeouts; in-memory yamux substreams",
+                "adapter src/verif/c16_exec.rs: the real QueryExecutor on Substreams over scripted in-memory pipes "
+                "(src/verif/io.rs), polled once per logical second",
+                "hand-written models Model/Kad/Executor.lean and Model/Kad/Serve.lean tied by the same differential run"]
 ASSUMPTIONS = ["every accepted dial is concluded, every accepted substream open is answered, every executor future completes "
                "(by reply, close or its timeout) - the real transport manager breaks the first one when the node is at its "
                "outgoing-connection limit (defect dial-at-connection-limit-never-concluded, repaired by a fix: commit; S2 witness in the corpus)",
                "ConnectionEstablished is only delivered for a peer without connection, substream events only for open connections",
                "query ids are unique (shared atomic counter of the handle)",
-               "a lookup whose pending set is empty yields an action (C15 terminates)"]
+               "a lookup whose pending set is empty yields an action (C15 terminates)",
+               "wall-clock expiry (std::time::Instant) does not elapse during a case except for TTL 0; k-buckets do not fill up"]
 KEEP_PREFIX = 1
 
 OPS = ["find_node", "put_record", "put_record_to", "get_record", "start_providing", "get_providers"]
